@@ -83,10 +83,8 @@ func init() {
 }
 
 func RunWitness(t *testing.T) {
-	f, ok := Witnesses[rt.E.Witness]
-	if !ok {
-		t.Fatalf("unknown witness %q", rt.E.Witness)
+	for id, f := range Witnesses {
+		known.Witnesses[id] = f
 	}
-	still, detail := f()
-	rt.WitnessResult(still, detail)
+	known.RunWitness()
 }
